@@ -41,7 +41,8 @@ Record shape := mkShape {
   sh_closewrite : bool;      (* copier.copy: closeWriter(dst) after io.CopyBuffer, before signalling done *)
   sh_wait_all : bool;        (* bicopy receives from donec once per copier before returning *)
   sh_close_up : bool;        (* the dialled connection is closed when the tunnel returns (defer crw.Close / res.Body.Close) *)
-  sh_close_down : bool       (* the client connection is closed when the tunnel returns (errClose, defer conn.Close) *)
+  sh_close_down : bool;      (* the client connection is closed when the tunnel returns (errClose, defer conn.Close) *)
+  sh_clears_deadline : bool  (* tunnel(): the request's read deadline is cleared before the copiers start *)
 }.
 
 Record dstate := mkD {
@@ -156,6 +157,10 @@ Definition closed (sd : side) (s : state) : bool := match sd with Up => s_up s |
 Definition can_copy (sh : shape) (s : state) : bool :=
   s_replied s && (negb (sh_drain_first sh) || is_nil (d_pre (s_ct s))).
 Definition any_closed (s : state) : bool := s_up s || s_down s.
+(* can a Read/Write of copier d fail: a connection of the tunnel has been closed,
+   or (client side only) the request's read deadline is still armed *)
+Definition may_break (sh : shape) (s : state) (d : dir) : bool :=
+  any_closed s || (negb (sh_clears_deadline sh) && dir_eqb d CT).
 Definition is_done (x : dstate) : bool := cop_eqb (d_cop x) Done.
 Definition both_done (s : state) : bool := is_done (s_ct s) && is_done (s_tc s).
 Definition some_done (s : state) : bool := is_done (s_ct s) || is_done (s_tc s).
@@ -196,7 +201,7 @@ Inductive step (sh : shape) : state -> label -> state -> Prop :=
     step sh s (LDrain bs) (drain sh s)
 | S_close s sd : closed sd s = false -> finished sh s && closes sh sd = true \/ grace_over sh s = true ->
     step sh s (LClose sd) (close_side s sd)
-| S_dir s d a x' : dstep sh (can_copy sh s) (any_closed s) (get d s) a x' ->
+| S_dir s d a x' : dstep sh (can_copy sh s) (may_break sh s d) (get d s) a x' ->
     step sh s (LD d a) (note_done a (set d s x')).
 
 Definition stepb (sh : shape) (s : state) (l : label) : option state :=
@@ -210,7 +215,7 @@ Definition stepb (sh : shape) (s : state) (l : label) : option state :=
   | LClose sd =>
       if negb (closed sd s) && (finished sh s && closes sh sd || grace_over sh s) then Some (close_side s sd) else None
   | LD d a =>
-      match dstepb sh (can_copy sh s) (any_closed s) (get d s) a with
+      match dstepb sh (can_copy sh s) (may_break sh s d) (get d s) a with
       | Some x' => Some (note_done a (set d s x'))
       | None => None
       end
@@ -252,8 +257,9 @@ Definition is_env (l : label) : bool :=
 
 Definition shape_ok (sh : shape) : Prop :=
   sh_drain_first sh = true /\ sh_drain_rereads sh = false /\ sh_closewrite sh = true /\
-  sh_wait_all sh = true /\ 0 < sh_bufsz sh /\ (0 <= sh_grace sh)%Z /\ sh_close_up sh = true /\ sh_close_down sh = true.
+  sh_wait_all sh = true /\ 0 < sh_bufsz sh /\ (0 <= sh_grace sh)%Z /\ sh_close_up sh = true /\ sh_close_down sh = true /\
+  sh_clears_deadline sh = true.
 
 Definition shape_okb (sh : shape) : bool :=
   sh_drain_first sh && negb (sh_drain_rereads sh) && sh_closewrite sh && sh_wait_all sh &&
-  (0 <? sh_bufsz sh) && (0 <=? sh_grace sh)%Z && sh_close_up sh && sh_close_down sh.
+  (0 <? sh_bufsz sh) && (0 <=? sh_grace sh)%Z && sh_close_up sh && sh_close_down sh && sh_clears_deadline sh.
